@@ -227,7 +227,7 @@ func hardKey(n *node, seen map[*node]bool) bool {
 
 // implOnly: the value holds something the model does not cover
 func implOnly(n *node) bool {
-	if n.kind == "tdef" || n.kind == "o" {
+	if n.kind == "tdef" {
 		return true
 	}
 	for _, k := range n.kids {
